@@ -169,7 +169,14 @@ def check_ifmr(method, feh, layout_seed, forms=("array",)):
                 return {"clause": "type and mass predictions work for Python-float / numpy-scalar / array input", "form": form, "m": repr(float(m)),
                         "observed": f"{type(e).__name__}: {e}"[:120]}
         vals = list(outs.values())
-        if any(v != vals[0] and not (math.isnan(v[0]) and math.isnan(vals[0][0])) for v in vals):
+        # numpy's scalar and vectorised `pow` may differ in the last place: same class, mass within 4 ulp
+        def same(v, w):
+            if v[1] != w[1]:
+                return False
+            if math.isnan(v[0]) or math.isnan(w[0]):
+                return math.isnan(v[0]) and math.isnan(w[0])
+            return abs(v[0] - w[0]) <= 4 * np.spacing(max(abs(v[0]), abs(w[0])))
+        if any(not same(v, vals[0]) for v in vals):
             return {"clause": "scalar and array predictions agree", "m": repr(float(m)), "observed": {k: repr(v) for k, v in outs.items()}}
     # every remnant falls in exactly one (half-open) bin of its class for a random layout covering the range
     lrng = np.random.default_rng(layout_seed + 1)
